@@ -134,3 +134,29 @@ pub proof fn lemma_spread_affine(n: real, s: real, q: real, a: real, b: real)
     assert(n * ((a * a) * q + 2real * (a * b) * s + n * (b * b)) == (a * a) * (n * q) + 2real * (a * b) * (s * n) + (n * n) * (b * b)) by(nonlinear_arith);
     assert((a * a) * (n * q - s * s) == (a * a) * (n * q) - (a * a) * (s * s)) by(nonlinear_arith);
 }
+
+// closed forms of sum_{i<k} i and sum_{i<k} i^2 (inductive steps) and positivity of k*isq - isum^2
+pub proof fn lemma_isum_step(k: real, s: real) requires s * 2real == k * (k - 1real) ensures (s + k) * 2real == (k + 1real) * k
+{ assert((k + 1real) * k == k * (k - 1real) + 2real * k) by(nonlinear_arith); }
+pub proof fn lemma_isq_step(k: real, q: real) requires q * 6real == (k - 1real) * k * (2real * k - 1real) ensures (q + k * k) * 6real == k * (k + 1real) * (2real * k + 1real)
+{
+    let kk = k * k;
+    assert((k - 1real) * k * (2real * k - 1real) == 2real * (kk * k) - 3real * kk + k) by(nonlinear_arith) requires kk == k * k;
+    assert(k * (k + 1real) * (2real * k + 1real) == 2real * (kk * k) + 3real * kk + k) by(nonlinear_arith) requires kk == k * k;
+}
+pub proof fn lemma_index_spread_positive(k: real, s: real, q: real)
+    requires k >= 2real, s * 2real == k * (k - 1real), q * 6real == (k - 1real) * k * (2real * k - 1real)
+    ensures k * q - s * s > 0real
+{
+    let kk = k * k;
+    // 12 (k q - s^2) = 2 k (6 q) - 3 (2 s)^2 = 2 k (k-1) k (2k-1) - 3 k^2 (k-1)^2 = k^2 (k-1)(k+1)
+    let s2 = s * 2real; let q6 = q * 6real;
+    assert((k * q - s * s) * 12real == 2real * (k * q6) - 3real * (s2 * s2)) by(nonlinear_arith) requires s2 == s * 2real, q6 == q * 6real;
+    assert(k * q6 == kk * ((k - 1real) * (2real * k - 1real))) by(nonlinear_arith) requires q6 == (k - 1real) * k * (2real * k - 1real), kk == k * k;
+    assert(s2 * s2 == kk * ((k - 1real) * (k - 1real))) by(nonlinear_arith) requires s2 == k * (k - 1real), kk == k * k;
+    let u = k - 1real;
+    assert(2real * (u * (2real * k - 1real)) - 3real * (u * u) == u * (k + 1real)) by(nonlinear_arith) requires u == k - 1real;
+    assert(2real * (kk * (u * (2real * k - 1real))) - 3real * (kk * (u * u)) == kk * (u * (k + 1real))) by(nonlinear_arith)
+        requires 2real * (u * (2real * k - 1real)) - 3real * (u * u) == u * (k + 1real);
+    assert(kk * (u * (k + 1real)) > 0real) by(nonlinear_arith) requires kk == k * k, u == k - 1real, k >= 2real;
+}
